@@ -20,7 +20,7 @@ type cBuild struct {
 	HeadRev  int    `json:"head_rev"`           // -1: same as Rev
 	Offline  bool   `json:"offline,omitempty"`  //
 	Crash    int    `json:"crash,omitempty"`    // exit at the k-th marker
-	Stall    string `json:"stall,omitempty"`    // "index" | "ctl" | "dat": stall that body in its middle and SIGKILL
+	Stall    string `json:"stall,omitempty"`    // "index" | "sig" | "ctl" | "dat": stall that body in its middle and SIGKILL ("sig" on an unsigned apk = "ctl")
 	StallPkg int    `json:"stall_pkg,omitempty"` // which package of the revision (install order)
 }
 
@@ -32,6 +32,17 @@ type cCase struct {
 	Conc   int      `json:"conc,omitempty"`  // concurrent recovery builds after the sequence
 	ConcCrash int   `json:"conc_crash,omitempty"` // one of them is killed at this marker
 	Plant  string   `json:"plant,omitempty"` // trunc-ctl | trunc-dat | empty-tar | cut-tar | foreign | trunc-index | stale-apk
+	Signed []bool   `json:"signed,omitempty"` // package j (base, lib, app) is a signed apk (absent: all unsigned)
+	Race   *cRace   `json:"race,omitempty"`
+}
+
+// cRace: build A (cold) is killed at marker Kill of package Pkg (install order); build B is paused inside
+// cachedPackage of that package (marker hit.probe: between the two probes for the data and the signature
+// section) if it gets there; build C runs to completion; B is released.  B and C must both produce the
+// cache-less image.
+type cRace struct {
+	Pkg  int    `json:"pkg"`
+	Kill string `json:"kill"` // pkg.begin | pkg.ctl | pkg.sig | pkg.dat | pkg.tar
 }
 
 type cacheSuite struct{}
@@ -42,11 +53,62 @@ func (cacheSuite) Name() string { return "cache" }
 
 const cacheNPkg = 3
 
-// markers of a cold build: 3 for the index, 9 per package
-func coldMarkers() int { return 3 + 9*cacheNPkg }
+// markers of a cold build: 3 for the index, 9 per unsigned package, 11 per signed one (one more
+// stream, one more advertise)
+func cachePkgMarkers(signed bool) int {
+	if signed {
+		return 11
+	}
+	return 9
+}
+
+func (c *cCase) signed(j int) bool { return j < len(c.Signed) && c.Signed[j] }
+
+func (c *cCase) coldMarkers() int {
+	n := 3
+	for j := 0; j < cacheNPkg; j++ {
+		n += cachePkgMarkers(c.signed(j))
+	}
+	return n
+}
+
+// cacheMarkerAt: the number of the marker `name` of the j-th package (install order = base, lib, app) in a cold build
+func cacheMarkerAt(signedAt func(int) bool, j int, name string) int {
+	n := 3
+	for i := 0; i < j; i++ {
+		n += cachePkgMarkers(signedAt(i))
+	}
+	sg := signedAt(j)
+	// expand.dir, expand.stream ×2|3, expand.tar, expand.done, pkg.begin, pkg.ctl, [pkg.sig], pkg.dat, pkg.tar
+	base := 5
+	if sg {
+		base = 6
+	}
+	switch name {
+	case "pkg.begin":
+		return n + base + 1
+	case "pkg.ctl":
+		return n + base + 2
+	case "pkg.sig":
+		if sg {
+			return n + base + 3
+		}
+		return n + base + 2
+	case "pkg.dat":
+		if sg {
+			return n + base + 4
+		}
+		return n + base + 3
+	default: // pkg.tar
+		return n + cachePkgMarkers(sg)
+	}
+}
 
 func (cacheSuite) Gen(r *Rng, i int, tier string) any {
 	c := cCase{Seed: r.Next(), NRev: r.Range(1, 3)}
+	for j := 0; j < cacheNPkg; j++ {
+		c.Signed = append(c.Signed, r.Chance(50))
+	}
 	for k := 0; k < c.NRev; k++ {
 		b := make([]bool, cacheNPkg)
 		for j := range b {
@@ -63,11 +125,25 @@ func (cacheSuite) Gen(r *Rng, i int, tier string) any {
 		c.Plant = Pick(r, []string{"trunc-ctl", "trunc-dat", "empty-tar", "cut-tar", "foreign", "trunc-index", "stale-apk"})
 		return c
 	}
+	if r.Chance(8) {
+		// a build paused inside cachedPackage while another one populates the cache
+		c.NRev = 1
+		c.Bumps = c.Bumps[:1]
+		c.Race = &cRace{Pkg: r.Intn(cacheNPkg), Kill: Pick(r, []string{"pkg.begin", "pkg.ctl", "pkg.sig", "pkg.dat", "pkg.tar"})}
+		if r.Chance(70) {
+			c.Signed[c.Race.Pkg] = true
+		}
+		return c
+	}
 	crashK := func() int {
 		if tier == "thorough" {
-			return 1 + (i % coldMarkers()) // every marker is swept
+			return 1 + (i % c.coldMarkers()) // every marker is swept
 		}
-		return r.Range(1, coldMarkers())
+		if r.Chance(25) {
+			// the advertise window of one package (for a signed one: around the signature link)
+			return cacheMarkerAt(c.signed, r.Intn(cacheNPkg), Pick(r, []string{"pkg.begin", "pkg.ctl", "pkg.sig", "pkg.dat", "pkg.tar"}))
+		}
+		return r.Range(1, c.coldMarkers())
 	}
 	rev := 0
 	nb := r.Range(2, 5)
@@ -94,7 +170,7 @@ func (cacheSuite) Gen(r *Rng, i int, tier string) any {
 				b.Crash = r.Range(1, 4)
 			}
 		case x < pc+ps:
-			b.Stall = Pick(r, []string{"index", "ctl", "dat"})
+			b.Stall = Pick(r, []string{"index", "sig", "ctl", "dat"})
 			b.StallPkg = r.Intn(cacheNPkg)
 		case x < pc+ps+15 && b.Rev == rev && b.HeadRev < 0 && k > 0:
 			b = cBuild{Offline: true}
@@ -106,13 +182,14 @@ func (cacheSuite) Gen(r *Rng, i int, tier string) any {
 	// F19a shape: killed right after `.dat.tar.gz` was advertised, the next build is killed inside the regeneration
 	if r.Chance(6) {
 		j := r.Intn(cacheNPkg)
-		c.Builds = append(c.Builds, cBuild{Rev: rev, HeadRev: -1, Crash: 3 + 9*j + 8}, cBuild{Rev: rev, HeadRev: -1, Crash: 2})
-		// (with a cold cache; with a warm one the markers are beyond the build and nothing happens)
+		c.Builds = append(c.Builds, cBuild{Rev: rev, HeadRev: -1, Crash: cacheMarkerAt(c.signed, j, "pkg.dat")}, cBuild{Rev: rev, HeadRev: -1, Crash: 3 + j})
+		// (with a cold cache; with a warm one the markers are beyond the build and nothing happens; the second
+		// build passes one hit.probe marker per cached package, then regen.begin, regen.created)
 	}
 	if r.Chance(50) {
 		c.Conc = r.Range(2, 4)
 		if c.Conc >= 3 && r.Chance(50) {
-			c.ConcCrash = r.Range(1, coldMarkers())
+			c.ConcCrash = r.Range(1, c.coldMarkers())
 		}
 		switch x := r.Intn(100); {
 		case x < 15:
@@ -145,7 +222,7 @@ func cachePkgs(c *cCase, rev int) []SPkg {
 		for k := 0; k < n; k++ {
 			fmt.Fprintf(&sb, "%016x", rr.Next())
 		}
-		p := SPkg{Name: names[j], Version: fmt.Sprintf("1.%d-r0", ver), Origin: names[j], Deps: deps[j],
+		p := SPkg{Name: names[j], Version: fmt.Sprintf("1.%d-r0", ver), Origin: names[j], Deps: deps[j], Signed: c.signed(j),
 			Files: []SFile{
 				{Path: "usr", Type: "dir", Mode: 0o755},
 				{Path: "usr/share", Type: "dir", Mode: 0o755},
@@ -165,7 +242,8 @@ type cacheEnv struct {
 	known   *cacheKnown
 	repos   []*SRepo
 	revCid  []int             // revision -> content id of its index
-	apkK1   map[string]int    // apk path -> k1
+	apkK1   map[string]int    // apk path -> k1 (control; data k1+1, tar k1+2, signature k1+3)
+	apkSigned map[string]bool // apk path -> has a signature section
 	order   [][]string        // revision -> apk base names ("base-1.0-r0") in install order
 	ref     map[string]string // digest -> "img<cid>"
 	nchild  int
@@ -200,7 +278,7 @@ func setupCacheEnv(c *cCase) (*cacheEnv, string) {
 	if err != nil {
 		return nil, err.Error()
 	}
-	e := &cacheEnv{scratch: scratch, world: filepath.Join(scratch, "world.gob"), known: newCacheKnown(), apkK1: map[string]int{}, ref: map[string]string{}}
+	e := &cacheEnv{scratch: scratch, world: filepath.Join(scratch, "world.gob"), known: newCacheKnown(), apkK1: map[string]int{}, apkSigned: map[string]bool{}, ref: map[string]string{}}
 	w := &cacheWorld{World: []string{"app"}}
 	for r := 0; r < c.NRev; r++ {
 		repo := BuildSynthRepo(cachePkgs(c, r), []string{"x86_64"})
@@ -214,6 +292,7 @@ func setupCacheEnv(c *cCase) (*cacheEnv, string) {
 			if _, ok := e.apkK1[path]; !ok {
 				k1 := 10*(len(e.apkK1)+1) + 1
 				e.apkK1[path] = k1
+				e.apkSigned[path] = len(cacheApkSig(a)) > 0
 				e.known.addApk(a, k1)
 			}
 		}
@@ -262,7 +341,11 @@ func (e *cacheEnv) revsField() string {
 		var ps []string
 		for _, name := range ord {
 			k1 := e.apkK1["x86_64/"+name+".apk"]
-			ps = append(ps, fmt.Sprintf("%d.%d.%d", k1, k1+1, k1+2))
+			sg := "-"
+			if e.apkSigned["x86_64/"+name+".apk"] {
+				sg = fmt.Sprint(k1 + 3)
+			}
+			ps = append(ps, fmt.Sprintf("%s.%d.%d.%d", sg, k1, k1+1, k1+2))
 		}
 		parts = append(parts, fmt.Sprintf("%d:%s", e.revCid[r], strings.Join(ps, "+")))
 	}
@@ -294,6 +377,9 @@ func (cacheSuite) Run(raw json.RawMessage) []Step {
 	if c.Plant != "" {
 		return runPlant(&c, e)
 	}
+	if c.Race != nil {
+		return runRace(&c, e)
+	}
 	cache := filepath.Join(e.scratch, "cache")
 	var builds, outs, tags []string
 	for _, b := range c.Builds {
@@ -316,9 +402,12 @@ func (cacheSuite) Run(raw json.RawMessage) []Step {
 			default:
 				name := e.order[b.Rev][b.StallPkg%cacheNPkg]
 				a := e.repos[b.Rev].Apks["x86_64/"+name+".apk"]
-				off := len(a.control) / 2
+				nsig := len(cacheApkSig(a))
+				off := nsig + len(a.control)/2
 				if b.Stall == "dat" {
-					off = len(a.control) + len(a.data)/2
+					off = nsig + len(a.control) + len(a.data)/2
+				} else if b.Stall == "sig" && nsig > 0 {
+					off = nsig / 2
 				}
 				o.Stall = fmt.Sprintf("%s.apk:%d", name, off)
 			}
@@ -382,11 +471,50 @@ func (cacheSuite) Run(raw json.RawMessage) []Step {
 		}
 		off := e.outcome(e.child(childOpts{Cache: cache, Offline: true}))
 		cstate := abstractCache(cache, e.known)
-		steps = append(steps, Step{Line: strings.Join([]string{"cache-conc", fmt.Sprintf("ok:img%d", e.revCid[last]), cstate, strings.Join(couts, ","), off}, "\t"),
+		steps = append(steps, Step{Line: strings.Join([]string{"cache-conc", fmt.Sprintf("ok:img%d", e.revCid[last]), cstate, strings.Join(couts, ","), off, e.revsField()}, "\t"),
 			Go: "-", Mode: "verdict", NoImpl: true, Tags: concTags(c, len(c.Builds)),
 			Desc: fmt.Sprintf("%d concurrent recovery builds + offline after builds=%s", c.Conc, strings.Join(builds, ";"))})
 	}
 	return steps
+}
+
+// signedAt: is the j-th package in install order of revision rev a signed apk
+func (e *cacheEnv) signedAt(rev int) func(int) bool {
+	return func(j int) bool { return e.apkSigned["x86_64/"+e.order[rev][j]+".apk"] }
+}
+
+// runRace: A (cold) is killed while it advertises package j; B starts and is paused inside cachedPackage of
+// package j (between its probes for the data and the signature section) — if it gets that far; C builds to
+// completion (advertising what A did not); B goes on.  Concurrent writers must be invisible: B and C both
+// produce the cache-less image.
+func runRace(c *cCase, e *cacheEnv) []Step {
+	cache := filepath.Join(e.scratch, "cache")
+	j := c.Race.Pkg % cacheNPkg
+	kill := cacheMarkerAt(e.signedAt(0), j, c.Race.Kill)
+	a := e.child(childOpts{Cache: cache, Crash: kill})
+	tags := []string{"race", "race-kill:" + c.Race.Kill}
+	if e.signedAt(0)(j) {
+		tags = append(tags, "race-signed")
+	}
+	if a.Status != "crash" {
+		return failStep("race", "build A was not killed at marker "+fmt.Sprint(kill)+": "+a.Status)
+	}
+	e.nchild++
+	bid := e.nchild
+	waitB := startChild(e.scratch, bid, childOpts{World: e.world, Key: e.key, Cache: cache, Pause: fmt.Sprintf("hit.probe:%d", j+1)})
+	if cacheWaitPaused(e.scratch, bid) {
+		tags = append(tags, "race-paused-in-cachedPackage")
+	} else {
+		tags = append(tags, "race-not-reached")
+	}
+	cres := e.child(childOpts{Cache: cache})
+	cacheRelease(e.scratch, bid)
+	bres := waitB()
+	outs := []string{e.outcome(cres), e.outcome(bres)}
+	state := abstractCache(cache, e.known)
+	return []Step{{Line: strings.Join([]string{"cache-race", "ok:img1", state, strings.Join(outs, ","), e.revsField()}, "\t"),
+		Go: "-", Mode: "verdict", NoImpl: true, Tags: tags,
+		Desc: fmt.Sprintf("A killed at %s of package %d (marker %d), B paused at its hit.probe #%d, C full, B released → C %s, B %s", c.Race.Kill, j, kill, j+1, outs[0], outs[1])}}
 }
 
 // runPlant: entries that the protocol never produces are planted into a fully populated cache; the
